@@ -20,6 +20,7 @@ import (
 var (
 	DatasetNotFoundErr      error = errors.New("Dataset not found")
 	DatasetAlreadyExistsErr error = errors.New("Dataset already exists")
+	InvalidDatasetErr       error = errors.New("Dataset dimension, partition count and replication factor must be positive and the space must be known")
 )
 
 type DatasetManager struct {
@@ -104,6 +105,10 @@ func (this *DatasetManager) Get(id uuid.UUID) (*Dataset, error) {
 }
 
 func (this *DatasetManager) Create(ctx context.Context, dataset *pb.Dataset) (*Dataset, error) {
+	if err := validateDataset(dataset); err != nil {
+		return nil, err
+	}
+
 	ctx, cancelCtx := context.WithTimeout(ctx, 1*time.Second)
 	defer cancelCtx()
 
@@ -150,6 +155,20 @@ func (this *DatasetManager) Create(ctx context.Context, dataset *pb.Dataset) (*D
 	case <-ctx.Done():
 		return nil, ctx.Err()
 	}
+}
+
+// A dataset that would make every later request on it fail (or crash the node) must
+// not enter the catalogue.
+func validateDataset(dataset *pb.Dataset) error {
+	if dataset.GetDimension() == 0 || dataset.GetPartitionCount() == 0 || dataset.GetReplicationFactor() == 0 {
+		return InvalidDatasetErr
+	}
+	switch dataset.GetSpace() {
+	case pb.Space_Euclidean, pb.Space_Manhattan, pb.Space_Cosine:
+	default:
+		return InvalidDatasetErr
+	}
+	return nil
 }
 
 func (this *DatasetManager) Delete(ctx context.Context, id uuid.UUID) error {
